@@ -49,3 +49,13 @@ pub async fn run_ls(cmd_args: CmdArgs) -> Result<(), Box<dyn Error + Sync + Send
     eprintln!("Server shutting down.");
     Ok(())
 }
+
+/// cfg-gated public wrapper around the private `main_loop` for the verification harness.
+#[cfg(feature = "verif")]
+pub async fn verif_main_loop(
+    connection: AsyncConnection,
+    params: InitializeParams,
+    cmd_args: CmdArgs,
+) -> Result<(), Box<dyn Error + Sync + Send>> {
+    main_loop::main_loop(connection, params, cmd_args).await
+}
